@@ -281,7 +281,7 @@ def shards(tier, seed):
     return [None]
 
 
-SHARD_TIMEOUT = dict(quick=3600, thorough=6 * 3600)
+SHARD_TIMEOUT = dict(quick=4 * 3600, thorough=12 * 3600)  # watchdog only; the box may be heavily overloaded
 WARM = [
     ("get", "Parent", 1), ("get", "Child", 1), ("set", "b1", "name", "w"), ("append", "b1", "children", "c2"), ("flush",),
     ("remove", "b1", "children", "b2"), ("begin_nested",), ("delete", "b2"), ("sp_commit",), ("expire_all",), ("commit",), ("rollback",),
